@@ -71,7 +71,33 @@ META_TEMPLATES = {
     'meta-html-header': 'HTML Header: <meta name="x" content="{A} {P} {B}">',
     'meta-continued': 'Subject: first\n    {A} {P} {B}',
 }
-ALL_KINDS = sorted(TEMPLATES) + sorted(META_TEMPLATES)
+# the payload right at the start of the line's content, directly after the block marker (where marker/indent stripping cuts)
+LEADING_TEMPLATES = {
+    'lead-paragraph':      '{P}{A} x {B}',
+    'lead-quote':          '> {P}{A} x {B}',
+    'lead-quote-nospace':  '>{P}{A} x {B}',
+    'lead-quote-fenced':   '> ```\n> {P}{A} code {B}\n> {P}{P}second\n> ```',
+    'lead-quote-fenced-nospace': '> ```\n>{P}{A} code {B}\n>{P}\n> ```',
+    'lead-quote-indented': '>     {P}{A} code {B}',
+    'lead-bullet':         '* {P}{A} x {B}\n* {P}other',
+    'lead-enum':           '1. {P}{A} x {B}',
+    'lead-item-continuation': '* item\n\n    {P}{A} x {B}',
+    'lead-indented-code':  '    {P}{A} x {B}\n    {P}more',
+    'lead-fenced-code':    '```\n{P}{A} x {B}\n```',
+    'lead-definition':     'Term\n: {P}{A} x {B}',
+    'lead-atx':            '# {P}{A} x {B}',
+    'lead-table-cell':     '|{P}{A} x {B}|{P}|\n|---|---|\n|{P}y|z{P}|',
+    'lead-footnote-def':   'n[^lf{N}]\n\n[^lf{N}]: {P}{A} x {B}\n    {P}continued',
+    'lead-meta-continued': 'Subject: first\n    {P}{A} x {B}',
+    'trail-paragraph':     '{A} x {B}{P}',
+    'trail-atx':           '# {A} x {B}{P} #',
+    'trail-quote-fenced':  '> ```\n> {A} x {B}{P}\n> ```',
+    'trail-table-cell':    '| {A} x {B}{P}| b |\n|---|---|\n| y{P}| z |',
+}
+TEMPLATES.update({k: v for k, v in LEADING_TEMPLATES.items() if k != 'lead-meta-continued'})
+META_TEMPLATES['lead-meta-continued'] = LEADING_TEMPLATES['lead-meta-continued']
+LEADING_KINDS = sorted(LEADING_TEMPLATES)
+ALL_KINDS = sorted(k for k in TEMPLATES if k not in LEADING_TEMPLATES) + sorted(k for k in META_TEMPLATES if k not in LEADING_TEMPLATES)
 
 
 def build(rng, payload_fn, kinds=None, nslots=None, eol='\n'):
